@@ -1105,4 +1105,82 @@ Proof.
 Qed.
 End Quiet.
 
+(* ---------- the initial state and the theorem for any wiring of this shape ---------- *)
+Section Init.
+Variables (boxes : list mbox) (threads : list thread).
+Hypothesis Hlb : length boxes = L.
+Hypothesis Hlt : length threads = S L.
+Hypothesis Hbox : forall j, j < L -> exists cap, nth j boxes dflt_mb = mk_mbox cap lz [true] /\ 1 <= cap.
+Hypothesis Hstg : forall i, i < L ->
+  nth i threads dflt_th = mk_thread (KStage N i) (match i with O => [] | S p => [(p, 0)] end).
+Hypothesis Hmain : nth L threads dflt_th = mk_thread (KMain relay) [(L - 1, 0)].
+
+Let st0 := mkSt boxes threads.
+
+Lemma shape0 : shape st0.
+Proof.
+  split; auto.
+  - intros i Hi. unfold get_th, st0. cbn [ths]. rewrite Hstg by auto. destruct i; reflexivity.
+  - unfold get_th, st0. cbn [ths]. rewrite Hmain. reflexivity.
+  - intros j Hj. destruct (Hbox j Hj) as [cap [E Hc]]. exists cap. split; auto.
+    unfold get_mb, st0. cbn [mbs]. rewrite E. reflexivity.
+Qed.
+
+Lemma Mok0 j cap : Mok j (mk_mbox cap lz [true]).
+Proof. split; cbn; auto; try lia; try discriminate. Qed.
+
+Lemma Inv_init : Inv (ninit nt boxes threads).
+Proof.
+  unfold ninit. fold st0. destruct (start_all_spec nt st0) as [Hm [Hl Hth]].
+  assert (Hsh : shape (start_all nt st0)) by (apply (shape_sig st0); [apply sig_start_all | apply shape0]).
+  assert (Hgm : forall j, get_mb (start_all nt st0) j = get_mb st0 j) by (intros; unfold get_mb; rewrite Hm; reflexivity).
+  assert (Hg0 : forall i, i < L -> get_th st0 i = mk_thread (KStage N i) (match i with O => [] | S p => [(p, 0)] end)).
+  { intros i Hi. unfold get_th, st0. cbn [ths]. auto. }
+  assert (Hstage : forall i, i < L -> post i (get_th st0 i) (get_th (start_all nt st0) i)).
+  { intros i Hi. rewrite Hth by (unfold st0; cbn [ths]; lia). apply loop_start_stage; auto.
+    rewrite Hg0 by auto. unfold ready, head_no, cur_r, mk_thread. cbn.
+    destruct i as [|p]; cbn; rewrite ?msgs_0; repeat split; auto; try lia. }
+  assert (Hmn : t_pc (get_th (start_all nt st0) L) = PRead /\ t_fi (get_th (start_all nt st0) L) = 0 /\
+                t_nstop (get_th (start_all nt st0) L) = 0 /\
+                cur_r (get_th (start_all nt st0) L) = mkR (L - 1) 0 0 false []).
+  { rewrite Hth by (unfold st0; cbn [ths]; lia). unfold get_th, st0. cbn [ths]. rewrite Hmain. cbn. auto. }
+  destruct Hmn as (Q1 & Q2 & Q3 & Q4).
+  split; [auto|]. split.
+  - intros j Hj. rewrite Hgm. destruct (Hbox j Hj) as [cap [E Hc]].
+    assert (Em : get_mb st0 j = mk_mbox cap lz [true]) by (unfold get_mb, st0; cbn [mbs]; auto).
+    rewrite Em. split; [apply Mok0|]. split.
+    + destruct (Hstage j Hj) as [_ [_ PS]]. apply PS; [reflexivity|]. intros _. rewrite Hg0 by auto. cbn. split; lia.
+    + destruct (Nat.eq_dec (S j) L) as [E1|E1].
+      * rewrite E1. unfold Rok, rcore. rewrite Q1, Q4. cbn. rewrite msgs_0. repeat split; auto; lia.
+      * destruct (Hstage (S j)) as [_ [PR _]]; [lia|]. apply PR; [lia | | reflexivity].
+        rewrite Hg0 by lia. reflexivity.
+  - intros i Hi. destruct (Nat.eq_dec i L) as [->|E].
+    + unfold Tok. rewrite Q1, Q2, Q3. repeat split; auto; lia.
+    + destruct (Hstage i) as [PT _]; [lia|]. exact PT.
+Qed.
+
+Hypothesis Hcov : cover nt st0 L.
+
+Theorem chain_core : forall sched st,
+  nrun nt (ninit nt boxes threads) sched = Some st -> quiescent nt st ->
+  all_terminal st = true /\ main_outcome st L = Some (OErr (EOrig c)).
+Proof.
+  intros sched st Hr Hq.
+  assert (Hthr : forall t, In t threads ->
+            plain_pc (t_pc t) /\ ~ main_pc (t_pc t) /\ forall r, In r (t_rd t) -> r_buf r = []).
+  { intros t Hin. destruct (In_nth _ _ dflt_th Hin) as [i [Hi E]]. rewrite Hlt in Hi.
+    destruct (Nat.eq_dec i L) as [->|Hne].
+    - rewrite Hmain in E. subst t. cbn. split; [exact I|]. split; [tauto|]. intros r [<-|[]]. reflexivity.
+    - rewrite Hstg in E by lia. subst t. cbn. split; [exact I|]. split; [tauto|].
+      destruct i; cbn; intros r Hr'; [contradiction | destruct Hr' as [<-|[]]; reflexivity]. }
+  assert (Hbx : forall m, In m boxes -> mb_box m = []).
+  { intros m Hin. destruct (In_nth _ _ dflt_mb Hin) as [j [Hj E]]. rewrite Hlb in Hj.
+    destruct (Hbox j Hj) as [cap [E2 _]]. rewrite E2 in E. subst m. reflexivity. }
+  destruct (Inv_run sched _ _ Inv_init Hr) as [HIst | (s1 & s2 & st1 & -> & H1 & H2 & H3)].
+  - exfalso. apply (no_deadlock st HIst); auto.
+    apply (Wn_reachable nt boxes threads sched st); auto. intros t Hin. apply (Hthr t Hin).
+  - exact (shutdown_theorem nt L boxes threads Hcov Hthr Hbx s1 st1 c H1 H2 s2 st H3 Hq).
+Qed.
+End Init.
+
 End Chain.
